@@ -801,6 +801,14 @@ theorem c09_merge_axes (v : View) (s : Nat → α) :
   show _ = (⟨_, (Iter.rowMajor (mergeAxes v.dims)).map (fun o => s (v.base + o))⟩ : NArr α)
   rw [hrm]
 
+/-- `merge_axes` as one step: reference reshape (previous theorem) and the storage-window invariant
+is kept, so it can be followed by any other covered operation.  (It is not an op of the chain
+theorems because its reference needs the shape the layout chose.) -/
+theorem c09_merge_axes_step (v : View) (s : Nat → α) (hwf : WF v) :
+    (denote v s).reshape (sizes (mergedAxes v).dims) = some (denote (mergedAxes v) s) ∧
+    WF (mergedAxes v) :=
+  ⟨c09_merge_axes v s, WF_mergedAxes v hwf⟩
+
 /-- A freshly allocated contiguous copy holds exactly the array it was made from
 (`to_vec` + `from_shape`; used by `to_contiguous`, `reshaped`, `slice_copy`). -/
 theorem c09_copy_roundtrip (A : NArr Nat) (hlen : A.data.length = numel A.shape) :
@@ -1012,8 +1020,9 @@ theorem c09_slice_copy_fast (t : TState) (items : List SliceItem) (v : View) (hw
     (hsteps : ∀ r, SliceItem.range r ∈ items → r.step ≠ 0)
     (hv : trySlice t.view items = .ok v) :
     ∃ t', sliceCopy t items = .ok t' ∧
-      NArr.sliceCopy (items.map toRefItem) t.arr = .ok t'.arr := by
-  refine ⟨TState.ofArr (denote v (fun i => t.store.getD i 0)), ?_, ?_⟩
+      NArr.sliceCopy (items.map toRefItem) t.arr = .ok t'.arr ∧ WF t'.view := by
+  refine ⟨TState.ofArr (denote v (fun i => t.store.getD i 0)), ?_, ?_,
+    WF_ofArr _ (denote_data_length _ _)⟩
   · unfold sliceCopy; rw [hv]
   · rw [c09_copy_roundtrip _ (denote_data_length _ _)]
     have hs := (c09_slice t.view items (fun i => t.store.getD i 0) hwf hsteps).1
@@ -1042,7 +1051,7 @@ copying path alike.  (This is the statement the pre-fix code violated, see
 theorem c09_slice_copy_ranges (t : TState) (items : List SliceItem)
     (hlen : items.length ≤ t.view.dims.length) (hr : rangesOnly items) (hwf : WF t.view) :
     ∃ t', sliceCopy t items = .ok t' ∧
-      NArr.sliceCopy (items.map toRefItem) t.arr = .ok t'.arr := by
+      NArr.sliceCopy (items.map toRefItem) t.arr = .ok t'.arr ∧ WF t'.view := by
   have hsteps : ∀ r, SliceItem.range r ∈ items → r.step ≠ 0 := by
     intro r hmem
     obtain ⟨r', h1, h2⟩ := hr _ hmem
@@ -1061,7 +1070,8 @@ theorem c09_slice_copy_ranges (t : TState) (items : List SliceItem)
       apply NArr.ofFn_congr
       intro idx hidx
       rw [h6 idx hidx]
-    refine ⟨TState.ofArr (NArr.gather (rsels t.view.dims items) t.arr), ?_, ?_⟩
+    refine ⟨TState.ofArr (NArr.gather (rsels t.view.dims items) t.arr), ?_, ?_,
+      WF_ofArr _ (by simp [NArr.gather, NArr.ofFn, idxs_length])⟩
     · unfold sliceCopy
       rw [hv]
       simp only [h1, h2, bind, Except.bind]
@@ -1546,6 +1556,155 @@ example : (chainL [.tr, .ra 0] ⟨0, 6, [(2, 3), (3, 1)]⟩).map (fun v' => deno
     (.error .panic : Except Err (NArr Nat)) ∧
     chainR [.tr, .ra 0] (⟨[2, 3], [0, 1, 2, 3, 4, 5]⟩ : NArr Nat) = .error .panic := ⟨by rfl, by rfl⟩
 
+/-! ## `materialize`: from an arbitrary view to an owned tensor -/
+
+/-- An owned tensor as `from_data_with_strides` builds it: data starts at 0, the window is the
+whole `Vec`, the layout has no internal overlap and fits the storage. -/
+def Owned (m : TState) : Prop :=
+  m.view.base = 0 ∧ m.view.len = m.store.length ∧ mayOverlap m.view.dims = false ∧ WF m.view
+
+/-- **materialize** (how the driver and the harness apply `append` / `clip_dim` to an arbitrary
+view): when it succeeds the new tensor is owned and denotes the same array. -/
+theorem materialize_ok (t m : TState) (h : materialize t = .ok m) :
+    mayOverlap t.view.dims = false ∧
+    minDataLen t.view.dims ≤ ((t.store.drop t.view.base).take t.view.len).length ∧
+    m = ⟨(t.store.drop t.view.base).take t.view.len,
+      ⟨0, ((t.store.drop t.view.base).take t.view.len).length, t.view.dims⟩⟩ := by
+  unfold materialize at h
+  cases hov : mayOverlap t.view.dims with
+  | true => simp [hov] at h
+  | false =>
+    simp only [hov, Bool.false_eq_true, if_false] at h
+    by_cases hlen : minDataLen t.view.dims > ((t.store.drop t.view.base).take t.view.len).length
+    · rw [if_pos hlen] at h; cases h
+    · rw [if_neg hlen] at h
+      injection h with h
+      exact ⟨rfl, by omega, h.symm⟩
+
+theorem materialize_arr (t m : TState) (h : materialize t = .ok m) : m.arr = t.arr ∧ Owned m := by
+  obtain ⟨hno, hlen, hm⟩ := materialize_ok t m h
+  subst hm
+  have hwin : ((t.store.drop t.view.base).take t.view.len).length ≤ t.view.len := by
+    rw [List.length_take]; omega
+  refine ⟨?_, rfl, rfl, hno, ?_⟩
+  · unfold TState.arr denote
+    apply NArr.ofFn_congr
+    intro idx hidx
+    have := offset_lt_minDataLen t.view.dims idx hidx
+    simp only [Nat.zero_add]
+    rw [getD_take_drop _ _ _ _ (by omega)]
+  · unfold WF; simp only []; omega
+
+theorem materialize_idem (m : TState) (h : Owned m)
+    (hv : m.view = ⟨0, m.store.length, m.view.dims⟩) : materialize m = .ok m := by
+  obtain ⟨hb, hl, hno, hwf⟩ := h
+  rw [materialize_owned m hb hl hno hwf]
+  congr 1
+  cases m with
+  | mk store view =>
+    simp only at hv ⊢
+    rw [hv]
+
+/-- **C09.T4 clip_dim on any view** (through `materialize`, as driven): when it returns, the
+result is the reference range of the axis of the *original* view's array, and it covers its
+layout. -/
+theorem c09_clip_dim_any (t t' : TState) (axis start stop : Nat)
+    (h : clipDim t axis start stop = .ok t') :
+    t.arr.sliceAxis axis start stop = .ok t'.arr := by
+  cases hm : materialize t with
+  | error e => unfold clipDim at h; rw [hm] at h; cases h
+  | ok m =>
+    obtain ⟨harr, hown⟩ := materialize_arr t m hm
+    have hm' : clipDim m axis start stop = .ok t' := by
+      have hmm : materialize m = .ok m := by
+        apply materialize_idem m hown
+        rw [(materialize_ok t m hm).2.2]
+      unfold clipDim at h ⊢
+      rw [hm] at h
+      rw [hmm]
+      exact h
+    rw [← harr]
+    exact c09_clip_dim m t' axis start stop hown.1 hown.2.1 hown.2.2.1 hown.2.2.2 hm'
+
+/-- **C09.T4 append on any view** (through `materialize`; element-wise write path): the result
+is `numpy.concatenate([a, other], axis)` of the *original* view's array. -/
+theorem c09_append_any_partial (t t' m : TState) (axis cap : Nat) (oshape : List Nat)
+    (hm : materialize t = .ok m)
+    (hslow : ¬ (isContiguous (resizeDim m.view.dims axis
+        ((sizes m.view.dims).getD axis 0 + oshape.getD axis 0)) = true ∧
+      m.store.length + numel oshape = minDataLen (resizeDim m.view.dims axis
+        ((sizes m.view.dims).getD axis 0 + oshape.getD axis 0))))
+    (h : appendOp t axis cap oshape = .ok t') :
+    t'.arr = NArr.concat axis t.arr (NArr.ofFn oshape (fun idx => 1000 + (idxs oshape).idxOf idx)) := by
+  obtain ⟨harr, hown⟩ := materialize_arr t m hm
+  have hmm : materialize m = .ok m := by
+    apply materialize_idem m hown
+    rw [(materialize_ok t m hm).2.2]
+  have hm' : appendOp m axis cap oshape = .ok t' := by
+    unfold appendOp at h ⊢
+    rw [hm] at h
+    rw [hmm]
+    exact h
+  rw [← harr]
+  exact (c09_append_concat_partial m t' axis cap oshape hown.1 hown.2.1 hown.2.2.1 hown.2.2.2
+    hslow hm').2
+
+theorem slicedShape_too_many (d : Dims) (items : List SliceItem) (hr : rangesOnly items)
+    (hlen : d.length < items.length) : slicedShape d items = .error .panic := by
+  induction d generalizing items with
+  | nil =>
+    cases items with
+    | nil => simp at hlen
+    | cons it its => rfl
+  | cons p ds ih =>
+    obtain ⟨n, st⟩ := p
+    cases items with
+    | nil => simp at hlen
+    | cons it its =>
+      have hr' : rangesOnly its := fun x hx => hr x (List.mem_cons_of_mem _ hx)
+      simp only [slicedShape, ih its hr' (by simpa using hlen), bind, Except.bind]
+
+theorem copySels_too_many (shape : List Nat) (items : List SliceItem) (hr : rangesOnly items)
+    (hlen : shape.length < items.length) :
+    NArr.copySels (items.map toRefItem) shape = .error .panic := by
+  induction shape generalizing items with
+  | nil =>
+    cases items with
+    | nil => simp at hlen
+    | cons it its => cases it <;> rfl
+  | cons n ns ih =>
+    cases items with
+    | nil => simp at hlen
+    | cons it its =>
+      have hr' : rangesOnly its := fun x hx => hr x (List.mem_cons_of_mem _ hx)
+      obtain ⟨r, hit, h0⟩ := hr it List.mem_cons_self
+      subst hit
+      simp only [List.map_cons, toRefItem, NArr.copySels, h0, if_false,
+        ih its hr' (by simpa using hlen)]
+      rfl
+
+/-- `slice_copy` with range items, as one step: reference result or the same panic (too many
+items), and the result — a fresh contiguous tensor — covers its layout. -/
+theorem c09_slice_copy_step (t : TState) (items : List SliceItem) (hr : rangesOnly items)
+    (hwf : WF t.view) :
+    (sliceCopy t items).map TState.arr = NArr.sliceCopy (items.map toRefItem) t.arr ∧
+    ∀ t', sliceCopy t items = .ok t' → WF t'.view := by
+  by_cases hlen : items.length ≤ t.view.dims.length
+  · obtain ⟨t1, h1, h2, h3⟩ := c09_slice_copy_ranges t items hlen hr hwf
+    rw [h1, h2]
+    exact ⟨rfl, fun t' h => by injection h with h; exact h ▸ h3⟩
+  · have hl : t.view.dims.length < items.length := by omega
+    have hL : sliceCopy t items = .error .panic := by
+      unfold sliceCopy trySlice
+      rw [if_pos hl]
+      simp only [slicedShape_too_many _ _ hr hl, bind, Except.bind]
+    have hR : NArr.sliceCopy (items.map toRefItem) t.arr = .error .panic := by
+      unfold NArr.sliceCopy
+      rw [copySels_too_many _ _ hr (by simpa [TState.arr, denote] using hl)]
+      rfl
+    rw [hL, hR]
+    exact ⟨rfl, fun t' h => by cases h⟩
+
 /-! ## T2 on tensor states: view operations, `to_contiguous` and `reshaped` in one chain -/
 
 theorem WF_toContiguous (t : TState) : WF (toContiguous t).view := by
@@ -1585,11 +1744,13 @@ inductive TOp
   | view (op : VOp)
   | tc
   | rs (shape : List Nat)
+  | slc (items : List SliceItem)
 
 def TOp.applyL : TOp → TState → Except Err TState
   | .view op, t => (op.applyL t.view).map (fun v => { t with view := v })
   | .tc, t => .ok (toContiguous t)
   | .rs shape, t => reshaped t shape
+  | .slc items, t => sliceCopy t items
 
 def TOp.applyR : TOp → NArr Nat → Except Err (NArr Nat)
   | .view op, A => op.applyR A
@@ -1597,9 +1758,11 @@ def TOp.applyR : TOp → NArr Nat → Except Err (NArr Nat)
   | .rs shape, A => match A.reshape shape with
     | some B => .ok B
     | none => .error .panic
+  | .slc items, A => A.sliceCopy (items.map toRefItem)
 
 def TOp.stepsOk : TOp → Prop
   | .view op => op.stepsOk
+  | .slc items => rangesOnly items
   | _ => True
 
 theorem c09_state_step (op : TOp) (t : TState) (hwf : WF t.view) (hs : op.stepsOk) :
@@ -1629,6 +1792,7 @@ theorem c09_state_step (op : TOp) (t : TState) (hwf : WF t.view) (hs : op.stepsO
     exact h ▸ WF_toContiguous t
   | rs shape =>
     exact ⟨c09_reshaped t shape, fun t' h => WF_reshaped t t' shape hwf h⟩
+  | slc items => exact c09_slice_copy_step t items hs hwf
 
 def chainTL : List TOp → TState → Except Err TState
   | [], t => .ok t
@@ -1642,8 +1806,8 @@ def chainTR : List TOp → NArr Nat → Except Err (NArr Nat)
     | .ok A' => chainTR ops A'
     | .error e => .error e
 
-/-- **C09.T2 (tensor states)**: chains mixing the view operations with `to_contiguous` and
-`reshaped` (view or copy) denote the reference chain; the storage-window invariant is kept
+/-- **C09.T2 (tensor states)**: chains mixing the view operations with `to_contiguous`,
+`reshaped` (view or copy) and `slice_copy` (range items) denote the reference chain; the storage-window invariant is kept
 across copies, so later view operations stay covered. -/
 theorem c09_state_chain (ops : List TOp) (t : TState) (hwf : WF t.view)
     (hs : ∀ op ∈ ops, op.stepsOk) :
@@ -1666,22 +1830,26 @@ theorem c09_state_chain (ops : List TOp) (t : TState) (hwf : WF t.view)
       exact ih t' (hwf' t' hL) (fun op' h => hs op' (List.mem_cons_of_mem _ h))
 
 /-- Non-vacuity: transpose, copy, reshape, slice on a 2×3 tensor. -/
-example : (chainTL [.view .tr, .tc, .rs [6], .view (.sl [.range ⟨1, none, 2⟩])]
+example : (chainTL [.view .tr, .tc, .rs [6], .view (.sl [.range ⟨1, none, 2⟩]),
+      .slc [.range ⟨-1, none, -1⟩]]
       ⟨[0, 1, 2, 3, 4, 5], ⟨0, 6, [(2, 3), (3, 1)]⟩⟩).map TState.arr =
-    .ok ⟨[3], [3, 4, 5]⟩ := by rfl
+    .ok ⟨[3], [5, 4, 3]⟩ := by rfl
 
 /-! ## The blocked copy loop (`copy_blocked`) -/
 
 /-- **C09 copy_blocked**: the write-by-write model of the 64×64-block / 4×4-tile loop nest
 (including the transposing kernel, used when the row stride is 1, and the narrow / short edge
 tiles) fills a `rows × cols` row-major buffer with `dest[r][c] = src[r·row_stride + c·col_stride]`
-for every `r < rows`, `c < cols` — every element written, none wrongly.  The model's output is
-compared with the real `to_vec` by the harness (`CB` requests). -/
+for every `r < rows`, `c < cols` — every element written, none wrongly — and every write of the
+loop nest targets a position inside the matrix (so the model's `List.set` never swallows an
+out-of-range write).  Tie to the code: the harness compares the real `to_vec` *output* with the
+model's output (`CB` requests); the order of the writes and which kernel ran are not observed. -/
 theorem c09_copy_blocked (rows cols rs cs : Nat) (src : Nat → Nat) :
+    (∀ w ∈ Copy.blockedWrites rows cols, w.r < rows ∧ w.c < cols) ∧
     (Copy.copyBlocked rows cols rs cs src).length = rows * cols ∧
     ∀ r c, r < rows → c < cols →
       (Copy.copyBlocked rows cols rs cs src).getD (r * cols + c) 0 = src (r * rs + c * cs) :=
-  Copy.copyBlocked_correct rows cols rs cs src
+  ⟨fun w hw => Copy.writes_valid rows cols w hw, Copy.copyBlocked_correct rows cols rs cs src⟩
 
 /-! ## T3: slice arithmetic agrees with the NumPy / CPython definition
 
